@@ -2,9 +2,11 @@ package sessfs
 
 import (
 	"context"
+	"errors"
 	"fmt"
 	"sort"
 	"strings"
+	"verifharness/internal/mockfs"
 
 	p9p "github.com/frobnitzem/go-p9p"
 	"pgregory.net/rapid"
@@ -26,6 +28,8 @@ type COp struct {
 
 type ClientCase struct {
 	Ops []COp
+	// FileRoot: the server exports a single regular file (the qid in Rattach has no QTDIR bit)
+	FileRoot bool `json:",omitempty"`
 }
 
 // spy records every call that reaches the session underneath CFileSys.
@@ -45,6 +49,8 @@ type spyCall struct {
 type spy struct {
 	s     p9p.Session
 	calls []spyCall
+	// failRead: the next Read fails with an I/O error that is not end-of-file, without reaching the session
+	failRead bool
 }
 
 func (y *spy) add(c spyCall) { y.calls = append(y.calls, c) }
@@ -75,6 +81,12 @@ func (y *spy) Walk(ctx context.Context, fid, newfid p9p.Fid, names ...string) ([
 	return q, err
 }
 func (y *spy) Read(ctx context.Context, fid p9p.Fid, p []byte, off int64) (int, error) {
+	if y.failRead {
+		y.failRead = false
+		err := errors.New("injected transport failure")
+		y.add(spyCall{Method: "read", Fid: fid, Err: err})
+		return 0, err
+	}
 	n, err := y.s.Read(ctx, fid, p, off)
 	y.add(spyCall{Method: "read", Fid: fid, Err: err})
 	return n, err
@@ -130,6 +142,26 @@ func genCOp(t *rapid.T) COp {
 		if rapid.IntRange(0, 9).Draw(t, "faultp") == 0 {
 			op.Fault = "walk"
 		}
+		if rapid.IntRange(0, 11).Draw(t, "deep") == 0 {
+			// more than 16 names after normalisation: /deep/d1/.../dN, complete or failing near the end
+			l := rapid.IntRange(15, 22).Draw(t, "deeplen")
+			op.Names = []string{"deep"}
+			for k := 1; k <= l; k++ {
+				op.Names = append(op.Names, fmt.Sprintf("d%d", k))
+			}
+			op.Partial, op.Fault = 0, ""
+			switch rapid.IntRange(0, 2).Draw(t, "deepend") {
+			case 0:
+				op.Names[rapid.IntRange(len(op.Names)-6, len(op.Names)-1).Draw(t, "deepbad")] = "missing"
+			case 1:
+				op.Partial = rapid.IntRange(len(op.Names)-6, len(op.Names)-1).Draw(t, "deeppartial")
+			}
+			op.Ent = 0
+		}
+	case "read":
+		if rapid.IntRange(0, 2).Draw(t, "readfault") == 0 {
+			op.Fault = "spyread"
+		}
 	case "open":
 		op.Mode = rapid.SampledFrom(modes).Draw(t, "mode")
 		if rapid.IntRange(0, 9).Draw(t, "faultp") == 0 {
@@ -159,6 +191,7 @@ func GenClientCase(t *rapid.T) ClientCase {
 	}
 	minLen := rapid.IntRange(1, max/2).Draw(t, "minlen")
 	c.Ops = append(c.Ops, rapid.SliceOfN(rapid.Custom(genCOp), minLen, max).Draw(t, "ops")...)
+	c.FileRoot = rapid.IntRange(0, 14).Draw(t, "fileroot") == 0
 	return c
 }
 
@@ -209,6 +242,13 @@ func eqS(a, b []string) bool {
 // RunC20 drives CFileSys over spy(SFileSys(mockfs)).
 func RunC20(c ClientCase) harn.Result {
 	e := NewEnv()
+	if c.FileRoot {
+		e.FS = mockfs.NewFileRoot()
+		e.FS.Hook = e.hook
+		e.Sess = p9p.SFileSys(e.FS)
+	} else {
+		e.FS.PopulateDeep("deep", 22)
+	}
 	y := &spy{s: e.Sess}
 	cfs := p9p.CFileSys(y)
 	ctx := context.Background()
@@ -316,6 +356,9 @@ func RunC20(c ClientCase) harn.Result {
 			if !eqS(steps, op.Names) {
 				cl["walk_normalised"] = true
 			}
+			if len(steps) > 16 {
+				cl["walk_over_16_names"] = true
+			}
 			for _, l := range live {
 				if l.fid == sc.Newfid {
 					return fail(i, op, "asked the server to bind fid %d, which already belongs to a live entry", sc.Newfid)
@@ -378,6 +421,10 @@ func RunC20(c ClientCase) harn.Result {
 				}
 			}
 		case "read":
+			if op.Fault == "spyread" && (cur.file != nil || cur.rn != nil) {
+				y.failRead = true
+				cl["read_fails_in_transit"] = true
+			}
 			if cur.file != nil {
 				buf := make([]byte, 16)
 				cur.file.Read(ctx, buf, 0)
@@ -485,6 +532,9 @@ func RunC20(c ClientCase) harn.Result {
 	}
 	if len(bf) != 0 {
 		return harn.Fail("after clunking every entry the server still holds fids %v [history: %s]", bf, strings.Join(trace, "; "))
+	}
+	if c.FileRoot {
+		cl["file_rooted_export"] = true
 	}
 	for k := range cl {
 		res.Classes = append(res.Classes, k)
